@@ -25,6 +25,30 @@ KIDS = ['00112233445566778899aabbccddee01',
 MPS = ['mm1', 'mz1']      # mz*: created with period duration "PT0S" (= the whole stream)
 
 
+def canon_kid(text) -> str:
+    t = (text.decode('ascii', 'replace') if isinstance(text, bytes) else str(text)).strip()
+    h = t[2:] if t.lower().startswith('0x') else t
+    h = h.replace('-', '')
+    if len(h) == 32:
+        try:
+            return bytes.fromhex(h).hex()
+        except ValueError:
+            pass
+    try:
+        import base64 as _b64
+        raw = _b64.b64decode(t + '=' * (-len(t) % 4))
+        if len(raw) == 16:
+            return raw.hex()
+    except Exception:      # noqa: BLE001
+        pass
+    return t
+
+
+def spell_kid(kid: str, spelling: str) -> str:
+    import uuid as _uuid
+    return {'': kid, 'upper': kid.upper(), 'dashed': str(_uuid.UUID(kid)), '0x': '0x' + kid}[spelling]
+
+
 class StoreDriver:
     def __init__(self, da) -> None:
         from harness.mgmt import Session
@@ -64,7 +88,8 @@ class StoreDriver:
                 if spk in dirs and bpk in blobs and (self.da.blob_folder / dirs[spk] / blobs[bpk]).exists():
                     ondisk = 1
                 files.append({'pk': pk, 'name': name, 'stream': spk, 'blob': bpk, 'ondisk': ondisk, 'indexed': 1 if rep else 0})
-            keys = [{'pk': pk, 'kid': kid} for pk, kid in con.execute('select pk, hkid from key')]
+            # a key id is 128 bits: rows are identified by the value, however the stored text spells it
+            keys = [{'pk': pk, 'kid': canon_kid(kid)} for pk, kid in con.execute('select pk, hkid from key')]
             links = [{'media': m, 'key': k} for m, k in con.execute('select media_pk, key_pk from mediafile_keys')]
             mps = [{'pk': pk, 'name': n} for pk, n in con.execute('select pk, name from mp_stream')]
             periods = [{'pk': pk, 'parent': par if par is not None else -1, 'stream': st if st is not None else -1}
@@ -148,7 +173,7 @@ class StoreDriver:
                                                                  'timing_ref': (srow or {}).get('tref') or ''})
             return r.status_code, 1 if r.status_code == 200 and srow else 0, spk
         if op == 'add_key':
-            r = s.request('PUT', f'/key?kid={a}&csrf_token={s.mint("keys")}')
+            r = s.request('PUT', f'/key?kid={spell_kid(a, b)}&csrf_token={s.mint("keys")}')      # b: how the id is written
             js = r.get_json(silent=True) or {}
             return r.status_code, 1 if js.get('kid') else 0, 0
         if op == 'delete_key':
@@ -238,6 +263,9 @@ SCRIPTS = [
     # the key that an indexed encrypted file uses is deleted, then another key is added (it may reuse the primary key)
     [('add_stream', 's1', ''), ('upload', 's1', 'fe'), ('delete_key', KIDS[1], ''), ('add_key', KIDS[0], ''), ('upload', 's1', 'fv'),
      ('set_tref', 's1', 'fv'), ('delete_media', 'fe', '')],
+    # one key id written in several ways: one row, and the encrypted file is linked to it
+    [('add_stream', 's1', ''), ('add_key', KIDS[1], 'upper'), ('add_key', KIDS[1], ''), ('add_key', KIDS[1], 'dashed'), ('upload', 's1', 'fe'),
+     ('add_key', KIDS[0], 'dashed'), ('add_key', KIDS[0], '0x'), ('add_key', KIDS[0], ''), ('upload', 's1', 'fv'), ('set_tref', 's1', 'fv')],
     # multi-period stream life-cycle
     [('add_stream', 's1', ''), ('upload', 's1', 'fv'), ('set_tref', 's1', 'fv'), ('add_mps', 'mm1', 's1'), ('add_mps', 'mm1', 's1'),
      ('delete_mps', 'mm1', ''), ('delete_mps', 'mm1', ''), ('delete_stream', 's2', '')],
@@ -263,7 +291,9 @@ def random_history(rng: random.Random, n: int) -> list[tuple[str, str, str]]:
             h.append((op, rng.choice(NAMES), ''))
         elif op == 'edit_media':
             h.append((op, rng.choice(NAMES), rng.choice(['eng', 'xyz', 'fra'])))
-        elif op in ('add_key', 'delete_key'):
+        elif op == 'add_key':
+            h.append((op, rng.choice(KIDS), rng.choice(['', '', 'upper', 'dashed', '0x'])))
+        elif op == 'delete_key':
             h.append((op, rng.choice(KIDS), ''))
         elif op == 'add_mps':
             h.append((op, rng.choice(MPS), rng.choice(DIRS)))
